@@ -93,6 +93,17 @@ Proof.
   - destruct (N.eq_dec a 0) as [->|Ha0]; [cbn; lia|]. apply N.log2_lt_pow2; [lia|exact Ha].
   - destruct (N.eq_dec b 0) as [->|Hb0]; [cbn; lia|]. apply N.log2_lt_pow2; [lia|exact Hb].
 Qed.
+Lemma Nlxor_lt_pow2 a b w : (a < 2 ^ w -> b < 2 ^ w -> N.lxor a b < 2 ^ w)%N.
+Proof.
+  intros Ha Hb. destruct (N.eq_dec w 0) as [->|Hw].
+  { cbn in *. assert (a = 0%N) by lia. assert (b = 0%N) by lia. subst. cbn. lia. }
+  destruct (N.eq_dec (N.lxor a b) 0) as [->|Hn]; [apply N.neq_0_lt_0, N.pow_nonzero; lia|].
+  apply N.log2_lt_pow2; [lia|]. eapply N.le_lt_trans; [apply N.log2_lxor|]. apply N.max_lub_lt.
+  - destruct (N.eq_dec a 0) as [->|Ha0]; [cbn; lia|]. apply N.log2_lt_pow2; [lia|exact Ha].
+  - destruct (N.eq_dec b 0) as [->|Hb0]; [cbn; lia|]. apply N.log2_lt_pow2; [lia|exact Hb].
+Qed.
+Lemma Nlxor_lt256 a b : (a < 256 -> b < 256 -> N.lxor a b < 256)%N.
+Proof. exact (Nlxor_lt_pow2 a b 8). Qed.
 Lemma Nlor_lt256 a b : (a < 256 -> b < 256 -> N.lor a b < 256)%N.
 Proof. exact (Nlor_lt_pow2 a b 8). Qed.
 Lemma Npow2_range k n : (k <= n -> 1 <= 2 ^ k <= 2 ^ n)%N.
@@ -160,6 +171,9 @@ Ltac pose_facts :=
   | |- context[N.ldiff ?a ?b] =>
       lazymatch goal with H : (N.ldiff a b <= a)%N |- _ => fail | _ => idtac end;
       pose proof (Nldiff_range a b)
+  | |- context[N.lxor ?a ?b] =>
+      lazymatch goal with H : (N.lxor a b < _)%N |- _ => fail | _ => idtac end;
+      pose proof (Nlxor_lt256 a b ltac:(lia) ltac:(lia))
   | |- context[N.lor ?a ?b] =>
       lazymatch goal with H : (N.lor a b < _)%N |- _ => fail | _ => idtac end;
       pose proof (Nlor_lt256 a b ltac:(lia) ltac:(lia))
@@ -248,6 +262,21 @@ Proof.
   destruct k as [|k]; cbn in *; [rewrite E; reflexivity|]. rewrite (IH k E). reflexivity.
 Qed.
 
+(* static_cast<uint8_t>(~mask) for a one-byte mask *)
+Lemma conv_u8_lnot_of_N m : (m < 256)%N -> conv TU8 (Z.lnot (Z.of_N m)) = Z.of_N (N.lxor 255 m).
+Proof.
+  intros Hm.
+  assert (E : N.lxor 255 m = (255 - m)%N).
+  { (* a finite fact: all 256 masks *)
+    assert (A : forallb (fun k => (N.lxor 255 (N.of_nat k) =? 255 - N.of_nat k)%N) (seq 0 256) = true) by (vm_compute; reflexivity).
+    rewrite forallb_forall in A. specialize (A (N.to_nat m)). rewrite N2Nat.id in A.
+    apply N.eqb_eq, A, in_seq. lia. }
+  rewrite E. unfold conv. cbn -[Z.modulo Z.lnot Z.of_N N.sub]. rewrite Zlnot_eq.
+  rewrite N2Z.inj_sub by lia. change (Z.of_N 255) with 255.
+  replace (- Z.of_N m - 1) with (255 - Z.of_N m + (-1) * 256) by lia.
+  rewrite Z.mod_add by lia. apply Z.mod_small. lia.
+Qed.
+
 Ltac sub_step :=
   match goal with
   | |- context[Zpos ?p - Z.of_N ?s] => rewrite (Zsub_pos_of_N p s) by rng
@@ -256,6 +285,7 @@ Ltac sub_step :=
   end.
 Ltac wrap_step :=
   match goal with
+  | |- context[conv TU8 (Z.lnot (Z.of_N ?m))] => rewrite (conv_u8_lnot_of_N m) by rng
   | |- context[conv TU8 (Z.of_N ?x)] => rewrite (conv_u8_of_N x)
   | |- context[conv TU16 (Z.of_N ?x)] => rewrite (conv_u16_of_N x)
   | |- context[conv TU32 (Z.of_N ?x)] => rewrite (conv_u32_of_N x)
